@@ -92,12 +92,18 @@ def gen_conv_table(repo, out):
 def gen_ops_list(hs, out):
     names = []
     for f in sorted(os.listdir(hs)):
-        if f.startswith("ops_") and f.endswith(".inc") and f != "ops_list.inc":
+        if (f.startswith("ops_") or f.startswith("opsx_")) and \
+                f.endswith(".inc") and f != "ops_list.inc":
             text = open(os.path.join(hs, f)).read()
             names += re.findall(r"^static void op_([a-z_0-9]+)\(ctx_t", text,
                                 re.M)
             names += re.findall(r"^(?:VD_GETI|VC_GETI|VN_SETR)\((\w+)\)", text,
                                 re.M)
+    extra = "".join('#include "%s"\n' % f for f in sorted(os.listdir(hs))
+                    if f.startswith("opsx_") and f.endswith(".inc"))
+    xo = os.path.join(os.path.dirname(out), "opsx_all.inc")
+    if not os.path.exists(xo) or open(xo).read() != extra:
+        open(xo, "w").write(extra)
     text = "".join("OP(%s)\n" % n for n in names)
     if not os.path.exists(out) or open(out).read() != text:
         open(out, "w").write(text)
@@ -142,8 +148,8 @@ def build(variant, repo=None, quiet=True):
         for s in drv:
             o = "drv_" + s[:-2] + ".o"
             objs.append(o)
-            mk.append("%s: %s conv_table.inc ops_list.inc\n\t$(CC) %s %s -MMD -MP -c -o $@ $<"
-                      % (o, os.path.join(hs, s), " ".join(flags),
+            mk.append("%s: %s conv_table.inc ops_list.inc opsx_all.inc $(wildcard %s/*.inc)\n\t$(CC) %s %s -MMD -MP -c -o $@ $<"
+                      % (o, os.path.join(hs, s), hs, " ".join(flags),
                          " ".join(inc)))
         # peek.c is optional: it uses internal headers and may not compile
         # against a refactored tree.
